@@ -197,6 +197,117 @@ def run(prog, rep, tier):
                 rep.violation(R173, inst, "%s (%s) owns file data but nothing reachable from drop_data_try ever removes entries from it; it grows with the file" % (inst, t[:80]))
     rep.floor(R173, 5)
 
+    # ------------------------------------------------------------ R17.5 own references go before the uniqueness test
+    # The release functions free an item with Arc::try_unwrap, which fails while any other strong
+    # reference exists.  References held by the reader's own containers (index maps, LRU caches) must
+    # therefore be removed *before* the test; a removal placed after it (or in its Ok arm) makes the
+    # test fail for every cached item, and the item - with its lines and blocks - is never retried.
+    R175 = rep.rule("R17.5", "a reader's own container entries are removed before Arc::try_unwrap of the item")
+    n175 = 0
+    for st in structs:
+        a = prog.facts.adts.get(st)
+        own_fields = [fl["name"] for fl in a["variants"][0]["fields"]
+                      if any(k in fl["ty"] for k in ("Map<", "Set<", "Vec<", "LruCache<", "LinkedList<", "VecDeque<")) and "std::sync::Arc<" in fl["ty"]]
+        for p_ in sorted(reach):
+            bd = prog.body(p_, required=False)
+            if bd is None or not p_.startswith(st + "::"):
+                continue
+            tus = [c for c in bd.live_calls() if c.d.endswith("Arc::<T, A>::try_unwrap") or c.d.endswith("Arc::<T>::try_unwrap") or c.d.split("::")[-1] in ("try_unwrap", "into_inner") and "Arc" in c.d]
+            if not tus:
+                continue
+            for c in bd.live_calls():
+                if c.d.split("::")[-1] in ("remove", "pop", "pop_entry", "remove_entry") and c.args:
+                    fld = None
+                    for o in bd.origins(c.args[0]):
+                        if o[0] == "arg" and o[1] == 1:
+                            for f_ in own_fields:
+                                if f_ in o[2]:
+                                    fld = f_
+                    if fld is None:
+                        continue
+                    n175 += 1
+                    # a removal guarded by the container's own `<field>_enabled` flag: when the flag is off the
+                    # container holds nothing, so the flag's false edge counts like the removal
+                    via = {c.bb}
+                    for sw in sorted(bd.live):
+                        if bd.term(sw)[0] == "switch":
+                            try:
+                                sd = decide.switch_decisions(bd, sw)
+                            except CheckerError:
+                                sd = None
+                            for tgt, d in (sd or []):
+                                if d[0] == "flag" and d[2] is False and d[1][0] == "arg" and any(fld in str(x) and "enabled" in str(x) for x in d[1][2:]):
+                                    if len(bd.pred[tgt]) == 1:
+                                        via.add(tgt)
+                    late = [t_ for t_ in tus if t_.bb in bd.reachable(0, via)]
+                    inst = "%s|%s" % (p_, fld)
+                    rep.examined(R175, inst, sample={"fn": p_.split("::")[-1], "container": fld, "removal_line": c.line, "try_unwrap_lines": [t_.line for t_ in tus], "removal_dominates_test": not late})
+                    if late:
+                        rep.violation(R175, inst, "%s: the entry in self.%s is removed (line %d) only after / beside Arc::try_unwrap (line %d); while the container still holds a reference the unwrap fails, "
+                                      "and the item with its lines and blocks is kept for the rest of the run" % (p_, fld, c.line, late[0].line))
+    if n175 < 3:
+        raise CheckerError("R17.5: only %d own-container removals found next to try_unwrap" % n175)
+
+    # ------------------------------------------------------------ R17.4 every block can be released
+    # For a plain file nothing but LineReader::drop_line hands blocks to BlockReader::drop_block (the
+    # look-behind drop exists only in the decoders).  drop_line releases the blocks of a line's parts
+    # up to a bound; if that bound can never reach the number of parts, the block holding a line's last
+    # part is only released through a *later* line that begins in it - so a block in which no line
+    # continues into the next one (lines ending exactly on the block end) is never released and memory
+    # grows with the file.  Necessary condition: some definition of the bound equals the full part count.
+    R174 = rep.rule("R17.4", "drop_line can release the block of a line's last part (blocks with no straddling line are releasable)")
+    dl = prog.body(LR + "::drop_line")
+    dbs = [c for c in dl.live_calls() if c.d == BR + "::drop_block"]
+    takes = [c for c in dl.live_calls() if (c.o or c.d).endswith("Iterator::take") or c.d.endswith("::take")]
+    lens = [c for c in dl.live_calls() if c.d.endswith("Vec::<T, A>::len") or c.d.endswith("::len")]
+    if not dbs:
+        raise CheckerError("LineReader::drop_line: no BlockReader::drop_block call")
+    callers = sorted(p for p, cs in prog.callgraph().items() if BR + "::drop_block" in cs)
+    text_reach = prog.reachable_fns(["s4::exec_syslogprocessor"])
+    plain_callers = [p for p in callers if "read_block_File" not in p and p in text_reach]
+    full = None
+    bound_defs = []
+    if takes:
+        tk = takes[0]
+        n_op = tk.args[1]
+        nl = op_local(n_op)
+        # follow copies to the named bound variable
+        seen = set()
+        work = [nl]
+        while work:
+            l = work.pop()
+            if l in seen or l is None:
+                continue
+            seen.add(l)
+            for d in dl.defs.get(l, []):
+                if d[1] == "call":
+                    bound_defs.append(("call", d[2].d.split("::")[-1]))
+                    continue
+                rv = d[2]
+                if rv[0] == "use" and rv[1][0] != "k":
+                    src = rv[1][1][0]
+                    # a copy of the part count itself?
+                    if any(src == c.dest[0] for c in lens):
+                        bound_defs.append(("len",))
+                    else:
+                        work.append(src)
+                elif rv[0] == "use":
+                    bound_defs.append(("const", rv[1][2]))
+                elif rv[0] == "bin":
+                    bound_defs.append((rv[1], dl.eval_int(rv[3])))
+                else:
+                    bound_defs.append((rv[0],))
+        full = any(d == ("len",) or (d[0] in ("Add", "Sub") and d[1] == 0) for d in bound_defs)
+    else:
+        # no take(): every part's block is released
+        full = True
+    rep.examined(R174, dl.path + "|bound", sample={"callers_of_drop_block": callers, "callers_outside_the_decoders": plain_callers, "definitions_of_the_bound": [list(map(str, d)) for d in bound_defs], "can_equal_part_count": full})
+    if plain_callers != [LR + "::drop_line"]:
+        rep.info("drop_block is also called from %s; R17.4's premise (drop_line is the only releaser for plain files) should be re-read" % [p for p in plain_callers if p != LR + "::drop_line"])
+    elif not full:
+        rep.violation(R174, dl.path + "|bound", "LineReader::drop_line releases at most all-but-the-last part's block of a line (bound definitions: %s) and is the only caller of drop_block for plain files; "
+                      "a block in which every line ends at or before the block's last byte (e.g. fixed 64-byte lines with --blocksz 1024) is never released: blocks high = blocks total" % [list(map(str, d)) for d in bound_defs])
+
     return rep.finish(
         "Static necessary-condition check that the release path exists and runs: every way round the streaming loop after sending a non-last "
         "message releases the previous message and re-arms; the seven-level drop chain is a live call chain and each level removes from its own "
